@@ -32,7 +32,8 @@ type concurrentTxn struct {
 func NewConcurrentTxnFrom(ctx context.Context, rootstore corekv.TxnStore, id uint64, readonly bool) *BasicTxn {
 	rootTxn := rootstore.NewTxn(readonly)
 	rootConcurentTxn := &concurrentTxn{Txn: rootTxn}
-	multistore := NewMultistore(rootTxn)
+	// The stores must be created from the wrapped transaction so that every access is synchronized.
+	multistore := NewMultistore(rootConcurentTxn)
 
 	return &BasicTxn{
 		Multistore: multistore,
@@ -63,6 +64,61 @@ func (t *concurrentTxn) Set(ctx context.Context, key []byte, value []byte) error
 	t.mu.Lock()
 	defer t.mu.Unlock()
 	return t.Txn.Set(ctx, key, value)
+}
+
+// Iterator implements corekv.Reader.
+//
+// The returned iterator shares the mutex of the transaction.
+func (t *concurrentTxn) Iterator(ctx context.Context, opts corekv.IterOptions) (corekv.Iterator, error) {
+	t.mu.Lock()
+	defer t.mu.Unlock()
+	iter, err := t.Txn.Iterator(ctx, opts)
+	if err != nil {
+		return nil, err
+	}
+	return &concurrentIterator{Iterator: iter, mu: &t.mu}, nil
+}
+
+type concurrentIterator struct {
+	corekv.Iterator
+
+	mu *sync.Mutex
+}
+
+func (i *concurrentIterator) Next() (bool, error) {
+	i.mu.Lock()
+	defer i.mu.Unlock()
+	return i.Iterator.Next()
+}
+
+func (i *concurrentIterator) Key() []byte {
+	i.mu.Lock()
+	defer i.mu.Unlock()
+	return i.Iterator.Key()
+}
+
+func (i *concurrentIterator) Value() ([]byte, error) {
+	i.mu.Lock()
+	defer i.mu.Unlock()
+	return i.Iterator.Value()
+}
+
+func (i *concurrentIterator) Seek(key []byte) (bool, error) {
+	i.mu.Lock()
+	defer i.mu.Unlock()
+	return i.Iterator.Seek(key)
+}
+
+func (i *concurrentIterator) Reset() {
+	i.mu.Lock()
+	defer i.mu.Unlock()
+	i.Iterator.Reset()
+}
+
+func (i *concurrentIterator) Close() error {
+	i.mu.Lock()
+	defer i.mu.Unlock()
+	return i.Iterator.Close()
 }
 
 // Sync executes the transaction.
